@@ -38,6 +38,7 @@ def c05(tier, seed):
     worlds = [world("dq_single_val", threading=0, arg=0),
               world("dq_single_val_getevent_str", threading=0, arg=0, mode=3, key=1, fraction=0.3),     # key derived by a getEvent policy from a movable argument
               world("dq_multi_cref_str", threading=1, arg=1, key=1, fill="0xFF", fraction=0.3),
+              world("dq_multi_val_getevent_decoy", threading=1, arg=0, mode=5, key=0, fraction=0.15),     # enqueue(first, args...) through a policy that ignores `first`
               world("dq_spin_val_hash", threading=2, arg=0, key=3, fill="0x00", fraction=0.15, callback=1)]
     if not quick:
         worlds += [world("dq_multi_ref_incl_clang17", threading=1, arg=2, mode=1, key=2, compiler="clang++", std="c++17", opt="-O2", fraction=0.2),
@@ -63,6 +64,8 @@ def c04(tier, seed):
               world("d_hash_val_getevent", obj=0, key=3, arg=0, mode=3, fraction=f, threading=2),
               world("d_int_val_getevent_byval", obj=0, key=0, arg=0, mode=4, fraction=f),
               world("d_str_val_getevent_byval_q", obj=1, key=1, arg=0, mode=4, fraction=f, threading=1),
+              world("d_int_cref_getevent_decoy", obj=0, key=0, arg=1, mode=5, fraction=f),          # policy that is not the identity on the leading argument
+              world("d_str_val_getevent_decoy_q", obj=1, key=1, arg=0, mode=5, fraction=f, fill="0xFF"),
               world("d_enum_cref_usermap", obj=0, key=4, arg=1, map_=3, fraction=f, callback=1),
               world("d_int_val_stdmap_q", obj=1, key=0, arg=0, map_=1, fraction=f),
               world("d_hash_cref_umap", obj=0, key=3, arg=1, map_=2, fraction=f, fill="0x00"),
@@ -120,9 +123,9 @@ def c13(tier, seed):
 RINV = ["Responsible", "Exclusive", "OnTarget", "CtrLeft", "Ok"]
 
 
-def rconsts(nodes=3, removers=2, disp=1, enq=0, depth=1, counts=(1,), ops=(), nest=(), defects=()):
+def rconsts(nodes=3, removers=2, disp=1, enq=0, depth=1, counts=(1,), ops=(), nest=(), defects=(), evkeys=(1, 2)):
     return {"MaxNodes": nodes, "MaxRemovers": removers, "MaxDisp": disp, "MaxEnq": enq, "MaxDepth": depth, "Counts": set(counts),
-            "Ops": set(ops), "NestOps": set(nest), "Defects": set(defects)}
+            "Ops": set(ops), "NestOps": set(nest), "Defects": set(defects), "EvKeys": set(evkeys)}
 
 
 def c15(tier, seed):
@@ -131,8 +134,12 @@ def c15(tier, seed):
     models = [{"module": "RemGen", "tag": "scoped", "invariants": RINV,
                "constants": rconsts(nodes=2 if quick else 3, removers=2 if quick else 3, disp=1, ops=sops if not quick else sops - {"sp"},
                                     nest={"sr", "sx"} if quick else {"sr", "sx", "sd"})}]
-    worlds = [world("r_disp", obj=0), world("r_queue_multi_str", obj=1, threading=1, key=1, arg=1, fraction=0.35, fill="0xFF"),
-              world("r_disp_spin_incl", obj=0, threading=2, mode=1, key=2, fraction=0.2, fill="0x00")]
+    models.append({"module": "RemGen", "tag": "scoped-lists", "invariants": RINV,
+                   "constants": rconsts(nodes=2 if quick else 3, removers=2, disp=1, ops=sops - {"sp"} if quick else sops, nest={"sr", "sx"}, evkeys=(1,))})
+    worlds = [world("r_disp", obj=0, only_tags=["scoped"]), world("r_queue_multi_str", obj=1, threading=1, key=1, arg=1, fraction=0.35, fill="0xFF", only_tags=["scoped"]),
+              world("r_disp_spin_incl", obj=0, threading=2, mode=1, key=2, fraction=0.2, fill="0x00", only_tags=["scoped"]),
+              world("r_list_multi", obj=2, threading=1, only_tags=["scoped-lists"]),                 # ScopedRemover<CallbackList>
+              world("r_list_single_cref", obj=2, threading=0, arg=1, fraction=0.4, fill="0xFF", only_tags=["scoped-lists"])]
     return {"interp": "harness/dq_interp.cpp", "trace_module": "TraceDQ", "models": models, "worlds": worlds,
             "defects": [{"module": "RemGen", "constants": rconsts(nodes=2, removers=2, ops=sops, nest=set()), "invariants": RINV, "defect": "orphan"}],
             "nontrivial_key": "scripts",
@@ -141,18 +148,27 @@ def c15(tier, seed):
                     "into empty and non-empty removers, swap, destruction in every order, with dispatches in between and remover operations issued "
                     "from listeners; every script ends by destroying all removers and probing both dispatchers; TraceDQ.tla keeps who answers for "
                     "which listener; non-trivial: every script (each is a distinct history ending in a different operation)",
-            "assumptions": ASSUME + ["ScopedRemover over CallbackList targets shares its code shape with the dispatcher specialisation and is exercised by the C10/C09 list worlds only"]}
+            "assumptions": ASSUME}
 
 
 def c16(tier, seed):
     quick = tier == "quick"
     ops = {"al", "rl", "ac", "ak", "dp", "nq", "po"}
+    pos = {"pc", "ic", "qk", "ik"}      # the helpers' prepend / insert-before forms
     models = [{"module": "RemGen", "tag": "counter-cond", "invariants": RINV,
                "constants": rconsts(nodes=2 if quick else 3, removers=1, disp=2 if quick else 3, enq=1 if quick else 2, depth=2,
                                     counts=(-1, 0, 1, 2, 3) if not quick else (0, 2),
                                     ops=ops, nest={"dp", "rl", "al"} if not quick else {"dp", "rl"})}]
-    worlds = [world("k_queue", obj=1), world("k_queue_incl_str", obj=1, mode=1, key=1, arg=1, threading=1, fraction=0.3, fill="0xFF"),
-              world("k_queue_ref_hash", obj=1, arg=2, key=3, fraction=0.2, fill="0x00")]
+    models.append({"module": "RemGen", "tag": "counter-cond-lists", "invariants": RINV,
+                   "constants": rconsts(nodes=2 if quick else 3, removers=1, disp=3 if quick else 4, enq=0, depth=2, counts=(-1, 0, 1, 2, 3) if not quick else (0, 1, 2),
+                                        ops={"al", "rl", "ac", "ak", "dp"} | pos, nest={"dp", "rl"}, evkeys=(1,))})
+    models.append({"module": "RemGen", "tag": "counter-cond-pos", "invariants": RINV,
+                   "constants": rconsts(nodes=2 if quick else 3, removers=1, disp=2 if quick else 3, enq=0 if quick else 1, depth=2, counts=(-1, 0, 1, 2) if not quick else (0, 2),
+                                        ops={"al", "rl", "dp", "po", "nq"} | pos, nest={"dp", "rl"} if quick else {"dp", "rl", "ic", "qk"}, evkeys=(1,) if quick else (1, 2))})
+    worlds = [world("k_queue", obj=1, only_tags=["counter-cond"], fraction=0.4 if quick else 1.0), world("k_queue_pos", obj=1, only_tags=["counter-cond-pos"]), world("k_queue_incl_str", obj=1, mode=1, key=1, arg=1, threading=1, fraction=0.3, fill="0xFF", only_tags=["counter-cond"]),
+              world("k_queue_ref_hash", obj=1, arg=2, key=3, fraction=0.2, fill="0x00", only_tags=["counter-cond"]),
+              world("k_list_multi", obj=2, threading=1, only_tags=["counter-cond-lists"]),           # CounterRemover / ConditionalRemover over CallbackList
+              world("k_list_spin_ref", obj=2, threading=2, arg=2, fraction=0.4, only_tags=["counter-cond-lists"])]
     return {"interp": "harness/dq_interp.cpp", "trace_module": "TraceDQ", "models": models, "worlds": worlds,
             "nontrivial_key": "nested",
             "rule": "every transition of the bounded RemGen reference model with CounterRemover listeners (trigger counts incl. zero and negative) and "
